@@ -38,7 +38,7 @@ Definition P_result (l : list ev) (e : ev) : Prop :=
 Definition P_cancel (F : sfacts) (l : list ev) (e : ev) : Prop :=
   match e with
   | UStart | UPoll | UStep | UFinish _ => Dropped ∉ l
-  | UCancel => Dropped ∈ l /\ user_alive l
+  | UCancel => Dropped ∈ l /\ user_alive l /\ (F.(f_state_dropped_first) = true -> in_slot l)
   | Dropped => Dropped ∉ l
   | SlotEnd | OStart _ => F.(f_state_dropped_first) = true -> ~ user_alive l
   | _ => True
